@@ -1,7 +1,8 @@
 import Skv.Drv.C08
 import Skv.Drv.C12
+import Skv.Drv.C04
 
-def drivers : List (String × LineDriver) := [("c08", c08Driver), ("c12", c12Driver)]
+def drivers : List (String × LineDriver) := [("c08", c08Driver), ("c12", c12Driver), ("c04", c04Driver)]
 
 def main (args : List String) : IO UInt32 := do
   match args with
